@@ -233,12 +233,16 @@ class Histogram1D(ObjectWithBinning, HistogramBase):
         keep_missed = False
         if isinstance(index, int):
             return self.bins[index], self.frequencies[index]
-        if isinstance(index, np.ndarray):
-            if index.dtype == bool:
-                if index.shape != (self.bin_count,):
+        if isinstance(index, (list, np.ndarray)):
+            index_array = np.asarray(index)
+            if index_array.dtype == bool:
+                if index_array.shape != (self.bin_count,):
                     raise IndexError(
                         "Cannot index with masked array of a wrong dimension"
                     )
+            elif index_array.dtype.kind in "iu":
+                # The selected bins keep their rising order (each at most once)
+                index = np.unique(np.arange(self.bin_count)[index_array])
         elif isinstance(index, slice):
             keep_missed = self.keep_missed
             # TODO: Fix this
